@@ -95,6 +95,20 @@ pub fn route_live_slice(ctx: &Ctx, tables: &[Vec<Spec>], samples: &Samples) -> S
         let (Some(api_a), Some(api_b)) = (api_a, api_b) else { return };
         let router = api_a.into_router();
         let all_all = specs.iter().all(|s| s.range == Range::All);
+        // a table with version-restricted endpoints cannot be served without a version policy: every
+        // request would match all generations of an operation at once, so the server must refuse to start
+        if !all_all {
+            if let (Some(api_c), _) = build_table(specs) {
+                if let Ok(_srv) = LiveServer::start(api_c, AppCtx::default(), ServerOpts::default()) {
+                    ctx.report(Violation {
+                        sig: json!({"kind":"unversioned_server_started_with_version_restricted_endpoints"}),
+                        case: json!({"kind":"live_table","specs": specs.iter().map(|s| s.to_json()).collect::<Vec<_>>(), "request": null, "server": "no version policy"}),
+                        expected: json!("the server refuses to start (dispatch would be ambiguous)"),
+                        observed: json!("started"),
+                    });
+                }
+            }
+        }
         let opts = ServerOpts { version_policy: if all_all { None } else { Some(versioned("9.0.0")) }, ..Default::default() };
         let srv = match LiveServer::start(api_b, AppCtx::default(), opts) {
             Ok(s) => s,
